@@ -311,15 +311,43 @@ def check_nav(c, st):
                     % (tuple(refs), base, step, e))
         if norm(step) != norm(got):
             return ('chain-differs-from-stepwise', 'chained %r vs stepwise %r' % (got, step))
+    # the result is normalized: parsing its text and normalizing again changes nothing
+    st.monitor_evals += 1
+    try:
+        again = uu.URL(got)
+        again.normalize()
+        if again.to_text() != got:
+            return ('result-not-normalized', 'URL(%r).navigate%r -> %r, but normalize() turns that into %r'
+                    % (base, tuple(refs), got, again.to_text()))
+    except Exception as e:
+        return ('navigate-raised:%s:renormalize' % type(e).__name__, 'normalizing %r raised %r' % (got, e))
     # the caller goes on editing the URLs it was handed; the same navigations done again (from a freshly parsed
     # base) must not be affected by that
     st.monitor_evals += 1
     try:
         for u in results:
-            u.path_parts = tuple(u.path_parts) + ('zz-edited',)
+            rooted = (not u.path_parts) or tuple(u.path_parts[:1]) == ('',)
+            if rooted:
+                u.navigate('zz-warm/x')     # the URL has been navigated from before it is edited
+            if isinstance(u.path_parts, list):
+                u.path_parts.append('zz-edited')        # edited in place when the attribute is a list
+                u.path_parts.insert(1, 'zz-front') if rooted else None
+            else:
+                u.path_parts = tuple(u.path_parts) + ('zz-edited',)
             u.query_params['zz-session'] = 'edited'
             u.fragment = 'zz-edited'
             u.host = 'edited.example'
+            if rooted:
+                # ... and navigating from the edited URL resolves against what it now is
+                now = u.to_text()
+                for sib in ('../../g', 'x/./y', '.'):
+                    st.monitor_evals += 1
+                    got3 = u.navigate(sib).to_text()
+                    want3 = rfc_resolve(now, sib)
+                    if norm(got3) != norm(want3):
+                        return ('navigate:from-an-edited-url', 'a URL returned by navigate() was edited by its owner (path_parts '
+                                '%s, query, fragment, host) and now reads %r; navigate(%r) from it -> %r, RFC 3986 5.2 gives %r'
+                                % ('in place' if isinstance(u.path_parts, list) else 're-assigned', now, sib, got3, want3))
         cur2 = uu.URL(base)
         chain2 = []
         for ref in refs:
@@ -364,7 +392,36 @@ def check_norm(c, st):
     return None
 
 
+MESSY_QUERIES = ['x=1;y=2', 'tag=a+b', 'a&&b', '%7Ek=v', 'a=1&a=2&&', 'k=%zz', '=v', 'k==v', 'a%26b=c', 'k=%41%42', '&', 'a=b;;c']
+
+
+def check_base_untouched(c, st):
+    """A base whose query is not in the serializer's own form: nothing navigate() does may change how it renders."""
+    uu = common.load('urlutils')
+    st.monitor_evals += 1
+    try:
+        b = uu.URL(c['base'])
+        views = [lambda: b.to_text(), lambda: str(b), lambda: repr(b), lambda: b.to_text(full_quote=True)]
+        before = views[c['view']]()
+        for ref in c['refs']:
+            b.navigate(ref)
+        after = views[c['view']]()
+        full = [v() for v in views]
+        for ref in c['refs']:
+            b.navigate(ref)
+        full2 = [v() for v in views]
+    except Exception as e:
+        return ('navigate-raised:%s' % type(e).__name__, 'URL(%r).navigate%r raised %r' % (c['base'], tuple(c['refs']), e))
+    if before != after or full != full2:
+        return ('base-modified:rendering', 'URL(%r) rendered as %r; after navigate%r it renders as %r'
+                % (c['base'], before, tuple(c['refs']), after))
+    st.count('messy_query_bases')
+    return None
+
+
 def check(c, st):
+    if c['kind'] == 'untouched':
+        return check_base_untouched(c, st)
     return check_norm(c, st) if c['kind'] == 'norm' else check_nav(c, st)
 
 
@@ -376,7 +433,10 @@ BASES = ['http://host', 'http://host/', 'http://host/a', 'http://host/a/', 'http
          'HTTP://Host/a/b',
          # absolute URLs without an authority: rootless and rooted paths
          'urn:isbn', 'mailto:user@example.com', 'x-app:a/b/c', 'x-app:/a/b', 'x-app:a/b?q=1#f', 'tel:+1-201',
-         'x-app:/a/b/c/']
+         'x-app:/a/b/c/',
+         # hosts whose lower-casing / Unicode normal forms are not the obvious ones
+         'http://\u2102afe.example/a/b/c', 'http://\uff21\uff22.example/a/b', 'http://\u0130stanbul.example/a/',
+         'http://\u2122.example/x/y', 'http://\U0001d400b.example/a/b/c', 'http://\u01c5.example/p', 'http://\ufb01.example/a/b']
 SEGS = ['.', '..', '', 'a', 'b']
 
 
@@ -406,9 +466,15 @@ def gen_ref(r, maxseg=8):
 
 
 def gen(r):
+    if r.random() < 0.03:
+        return {'kind': 'untouched', 'base': 'http://host/p/q?' + r.choice(MESSY_QUERIES) + r.choice(['', '#fr']),
+                'refs': [r.choice(['', '#f', 'x', '?n=1', '../y', '#', '.']) for _ in range(r.randint(1, 3))],
+                'view': r.randrange(4)}
     if r.random() < 0.12:
         segs = [r.choice(SEGS + ['c']) for _ in range(r.randint(0, 7))]
-        return {'kind': 'norm', 'text': r.choice(['http://host', 'HTTP://Host', 'foo://u@h:1']) +
+        return {'kind': 'norm', 'text': r.choice(['http://host', 'HTTP://Host', 'foo://u@h:1', 'http://\u2102afe.example',
+                                                  'http://\uff21\uff22.example', 'http://\u2122.example:80',
+                                                  'http://\U0001d400b.example', 'http://\u0130.example']) +
                 ''.join('/' + s for s in segs) + r.choice(['', '?q=1', '#f'])}
     base = r.choice(BASES)
     nref = 1 if r.random() < 0.75 else r.randint(2, 4)
